@@ -177,6 +177,33 @@ def case_pinv(T, m, n, complex_, algs, rhs_complex=False, cg_iters=None):
         T.eq(f"pinv({an}):normal equations", np.conjugate(A).T @ (A @ x - b), K.zeros_like_mode(T, (n, ), bdt), dtype=False)
 
 
+def case_svd_lanczos_large(T, m, n, k, max_iters):
+    """sizes beyond every internal default (100 Krylov steps): real float code on a concrete matrix with a graded spectrum; the iteration cap of
+    the algorithm object must reach the Krylov routine on the tall and on the wide branch alike.  (Concrete, not symbolic: 130 x 110.)"""
+    from cola.linalg.decompositions.decompositions import Lanczos
+    from symx import shim
+    was = shim.MODE.get("symbolic")
+    shim.symbolic(False)
+    try:
+        rs = np.random.RandomState(7)
+        r = min(m, n)
+        U0, _ = np.linalg.qr(rs.randn(m, r))
+        V0, _ = np.linalg.qr(rs.randn(n, r))
+        sig = np.linspace(1.0, 3.0, r)[::-1]
+        A = (U0 * sig) @ V0.T
+        S_ = _svdmod()
+        U, Sg, V = S_.svd(ops.Dense(A), k, "LM", Lanczos(max_iters=max_iters, tol=1e-12))
+        Ud, Sd, Vd = np.asarray(U.to_dense()), np.asarray(Sg.to_dense()), np.asarray(V.to_dense())
+        T.check(f"svd(Lanczos) {m}x{n}: k = {k} triplets", Ud.shape[1] == k and Vd.shape[1] == k and Sd.shape == (k, k), f"U {Ud.shape} S {Sd.shape} V {Vd.shape}")
+        if Ud.shape[1] == k and Vd.shape[1] == k:
+            best = (U0[:, :k] * sig[:k]) @ V0[:, :k].T
+            err = np.abs(Ud @ Sd @ Vd.conj().T - best).max()
+            T.check(f"svd(Lanczos) {m}x{n}: U Sigma V^H == best rank-{k} approximation (1e-6)", bool(err < 1e-6), f"max error {err:.2e}")
+            T.check(f"svd(Lanczos) {m}x{n}: orthonormal factors (1e-8)", bool(np.abs(Ud.conj().T @ Ud - np.eye(k)).max() < 1e-8 and np.abs(Vd.conj().T @ Vd - np.eye(k)).max() < 1e-8))
+    finally:
+        shim.symbolic(was)
+
+
 def _it(T, x):
     if T.sym:
         from symx.array import SymArray
@@ -229,6 +256,8 @@ def cases(tier, seed):
         for cx in (False, True):
             for k in (1, 2):
                 out.append((f"svd-lanczos:{'wide' if wide else 'tall'}{'-complex' if cx else ''}:k{k}", case_svd_lanczos, dict(wide=wide, complex_=cx, k=k)))
+    for (m, n) in ((130, 110), (110, 130)):
+        out.append((f"svd-lanczos-large:{m}x{n}", case_svd_lanczos_large, dict(m=m, n=n, k=105, max_iters=110), dict(validate=True)))
     for kind in ("identity", "scalar", "diag", "perm"):
         out.append((f"pinv-rule:{kind}", case_pinv_rules, dict(kind=kind)))
     return out
